@@ -5,8 +5,12 @@ CLAIMED = {
  "C02": ("proof", "Coq theorems: subm (translated from the C++ loop body on every run) is clamped subtraction for every width and "
          "pair of values; boolean dilation/erosion of the model are adjoint for any dimension and element, borders included, hence "
          "open/close are (anti-)extensive, idempotent and increasing; cdilate/cerode bounds for every dtype and iteration count. "
-         "Grey-level laws, duality and top-hat identities are evaluated on the implementation's outputs; all seven public functions "
-         "are compared with the extracted model on generated inputs",
+         "For unsigned dtypes and flat elements (what morph.py builds from masks) the grey-scale adjunction, the six laws of "
+         "opening/closing and the exactness of both top-hats are theorems on the images clear of the upper limit; binary duality "
+         "dilate = not erode(not .) is a theorem for every element with a symmetric clamped neighbourhood relation (cross, boxes, "
+         "disks pass the executable test; an asymmetric element provably fails). All laws are also evaluated on the "
+         "implementation's outputs and all seven public functions are compared with the extracted model on generated inputs "
+         "(incl. boolean row views of larger buffers)",
          "Rocq proof (Galois adjunction) + translator + differential correspondence"),
  "C06": ("proof", "Coq theorems: the translated fix_offset equals the mathematical border rule in all six modes (for all "
          "coordinates and lengths) and the generic convolution model equals the defining sum for any dimension and kernel shape; "
@@ -18,7 +22,9 @@ CLAIMED = {
          "Rocq proof + translator + differential correspondence (exact-arithmetic regime)"),
  "C01": ("proof", "Coq theorems (all dims/dtypes/elements) about an executable model whose scalar kernels "
          "(fix_offset, erode_sub, dilate_add) are re-translated from the C++ on every run: erosion = lattice definition at every "
-         "pixel, saturation laws for every width, scatter-dilation = max of contributions; the model is run (extracted OCaml) "
+         "pixel, saturation laws for every width, scatter-dilation = max of contributions; the 2-D boolean fast path "
+         "(second executable model, whose loops are RE-TRANSLATED from fast_binary_dilate_erode_2d and proved to be the model's "
+         "updates) is proved equal to the generic path for every image and element; the model is run (extracted OCaml) "
          "against the fresh build of /repo on generated inputs over dtypes x layouts x element classes, and the extracted Coq "
          "specification judges the implementation's outputs",
          "Rocq proof + translator + differential correspondence"),
@@ -61,7 +67,9 @@ CLAIMED = {
  "C04": ("proof", "Coq theorems (any dimension, neighbourhood, marker set): the code's flood -- flat-delta neighbour table, stored "
          "lower-bound margins that skip bounds checks, zero-delta entries dropped -- equals, labels and lines, the flood that checks "
          "every neighbour position explicitly (simulation proof); markers keep their labels; every pixel is 0 or linked to a "
-         "marker of its own label by neighbourhood steps through that label (flood invariant), so unreached pixels are 0. The "
+         "marker of its own label by neighbourhood steps through that label (flood invariant); conversely every pixel a marker can "
+         "reach is labelled and the loop ends with an empty queue (second invariant + measure), so the labelled set is exactly the "
+         "reachable set. The "
          "queue order is the re-translated operator<. Model, checked flood and an independent heap-based evaluation of the "
          "definition are compared with the fresh build (incl. dirty-heap worker processes) on generated and exhaustive inputs",
          "Rocq proof (simulation + invariants) + translator + differential correspondence"),
@@ -71,7 +79,8 @@ CLAIMED = {
          "sufficient) and equals the executable min-plus specification; one such pass per axis yields at every pixel the minimum "
          "over the whole grid of squared Euclidean distance + initial value (induction over the axes); hence distance() of the "
          "model is 0 on the background, exactly the least squared distance to a background pixel elsewhere, and larger than every "
-         "attainable distance when there is no background - any dimension, any shape. The model is tied to the code by exact "
+         "attainable distance when there is no background - any dimension, any shape; gvoronoi (origins carried through the "
+         "passes) returns at every pixel the label of a nearest labelled pixel and keeps labelled pixels. The model is tied to the code by exact "
          "differential correspondence on generated lines and images (and both to brute force)",
          "Rocq proof (envelope invariant + induction over axes) + differential correspondence (exact integers)"),
  "C16": ("proof", "Coq theorems on element functions RE-TRANSLATED from thresholding.py on every run (Python ast -> Gallina over Q, "
@@ -94,7 +103,8 @@ CLAIMED = {
          "preservation, components-minus-holes and hull containment are judged on every generated / exhaustive (<=3x5) case by "
          "independent evaluation; thin, euler and convexhull are compared with the extracted models",
          "Rocq proof + finite sweeps + translator + differential correspondence"),
- "C17": ("proof", "Coq theorems: on every row of even length ihaar inverts haar exactly, a Haar pass doubles the sum of squares "
+ "C17": ("proof", "Coq theorems: on every row of even length ihaar inverts haar exactly, and so do the full two-pass 2-D transforms on "
+         "every integer image with even sides; a Haar pass doubles the sum of squares "
          "(so the energy-preserving transform conserves it), haar is additive and homogeneous; [fin] the ten Daubechies tables "
          "RE-TRANSLATED from _convolve.cpp have lengths 2..20, sum to 2 and are orthonormal under even shifts within 1e-5, with "
          "D2 = [1,1]; wavelet_center offsets exceed the border and wavelet_decenter inverts wavelet_center. The 2-D transforms, "
@@ -111,8 +121,9 @@ CLAIMED = {
          "Rocq proof (Q) + differential correspondence (exact rational regime)"),
  "C19": ("proof", "Coq theorems: cooccurence counts exactly the ordered in-image pixel pairs at the offset (any dimension/distance, "
          "through the re-translated fix_offset in ignore mode and the per-label fold theorem); the SURF integral image recurrence is "
-         "the exact 2-D prefix sum for every rectangular input; [fin: P <= 12, all codes] the LBP mapping is the least cyclic rotation, "
-         "idempotent, constant on rotation classes. Haralick formulas, Zernike invariances, LBP histograms and moments are compared "
+         "the exact 2-D prefix sum for every rectangular input; a 180-degree rotation transposes the co-occurrence counts (so C + C^T "
+         "is invariant) and transposition swaps the offset's components; for EVERY P the LBP roll has period P, rolled codes share "
+         "the bin and the bin is a canonical rotation (plus the finite sweep P <= 12). Haralick formulas, Zernike invariances, LBP histograms and moments are compared "
          "with independent evaluations of the definitions / the extracted models on the fresh build",
          "Rocq proof + finite sweep + differential correspondence"),
  "C08": ("proof", "Coq theorems about the shared array layer (numpypp/array.hpp model): operator++ of the stride-aware iterator keeps "
